@@ -18,6 +18,7 @@ package sfnt
 
 import (
 	"fmt"
+	"sort"
 
 	"golang.org/x/exp/maps"
 	"seehuhn.de/go/postscript/cid"
@@ -93,6 +94,21 @@ func (s *subsetter) getNewGid(oldGid glyph.ID) glyph.ID {
 		s.newGid[oldGid] = newGid
 	}
 	return newGid
+}
+
+// sortedByNewGid returns those of the given (old) glyph IDs which are
+// included in the subset, sorted by their new glyph ID.
+func (s *subsetter) sortedByNewGid(oldGids []glyph.ID) []glyph.ID {
+	var res []glyph.ID
+	for _, oldGid := range oldGids {
+		if s.hasOldGid(oldGid) {
+			res = append(res, oldGid)
+		}
+	}
+	sort.Slice(res, func(i, j int) bool {
+		return s.newGid[res[i]] < s.newGid[res[j]]
+	})
+	return res
 }
 
 func (s *subsetter) SubsetCMap(c cmap.Subtable) cmap.Subtable {
@@ -262,11 +278,9 @@ func (s *subsetter) SubsetGsub(old *gtab.Info) *gtab.Info {
 				sNew := &gtab.Gsub1_2{
 					Cov: make(map[glyph.ID]int),
 				}
-				for oldOrig := range sOld.Cov {
-					newFrom, ok := s.newGid[oldOrig]
-					if !ok {
-						continue
-					}
+				// Coverage indices must increase with the new glyph IDs.
+				for _, oldOrig := range s.sortedByNewGid(maps.Keys(sOld.Cov)) {
+					newFrom := s.newGid[oldOrig]
 
 					newTo := oldOrig + sOld.Delta
 					sNew.Cov[newFrom] = len(sNew.SubstituteGlyphIDs)
@@ -285,11 +299,10 @@ func (s *subsetter) SubsetGsub(old *gtab.Info) *gtab.Info {
 				sNew := gtab.Gsub4_1{
 					Cov: make(coverage.Table),
 				}
-				for oldFirst, idx := range sOld.Cov {
-					newFirst, ok := s.newGid[oldFirst]
-					if !ok {
-						continue
-					}
+				// Coverage indices must increase with the new glyph IDs.
+				for _, oldFirst := range s.sortedByNewGid(maps.Keys(sOld.Cov)) {
+					idx := sOld.Cov[oldFirst]
+					newFirst := s.newGid[oldFirst]
 					var ligs []gtab.Ligature
 				ligLoop:
 					for _, lig := range sOld.Repl[idx] {
